@@ -5,7 +5,10 @@ use crate::{
     base::{BlockType, ParamKey, TokenResult},
     utils,
 };
+#[cfg(not(sentinel_verif))]
 use std::sync::{atomic::Ordering, Arc, Weak};
+#[cfg(sentinel_verif)]
+use sentinel_verif_rt::sync::{atomic::Ordering, Arc, Weak};
 
 #[derive(Debug)]
 pub struct RejectChecker<C: CounterTrait = Counter> {
@@ -123,7 +126,10 @@ impl<C: CounterTrait> Checker<C> for RejectChecker<C> {
                     last_add_token_time_arc.store(current_time_in_ms, Ordering::SeqCst);
                     return TokenResult::new_pass();
                 }
+                #[cfg(not(sentinel_verif))]
                 std::thread::yield_now();
+                #[cfg(sentinel_verif)]
+                sentinel_verif_rt::sync::yield_now();
             } else {
                 //check whether the rest of token is enough to batch
                 if let Some(old_qps_arc) = token_counter.get(&arg) {
@@ -151,7 +157,10 @@ impl<C: CounterTrait> Checker<C> for RejectChecker<C> {
                         );
                     }
                 }
+                #[cfg(not(sentinel_verif))]
                 std::thread::yield_now();
+                #[cfg(sentinel_verif)]
+                sentinel_verif_rt::sync::yield_now();
             }
         }
     }
